@@ -2488,6 +2488,8 @@ impl<'de, 'e> de::Deserializer<'de> for YamlDeserializer<'de, 'e> {
                         .peek()?
                         .map(|ev| ev.location())
                         .unwrap_or_else(|| replay.last_location());
+                    // (see the live branch below)
+                    let _value_fallback = MissingFieldLocationGuard::new(reference_location);
 
                     #[cfg(any(feature = "garde", feature = "validator"))]
                     {
@@ -2536,6 +2538,9 @@ impl<'de, 'e> de::Deserializer<'de> for YamlDeserializer<'de, 'e> {
                         .unwrap_or_else(|| self.ev.last_location());
 
                     let reference_location = self.ev.reference_location();
+                    // While the value is read, Serde's location-less errors (`invalid_value`, ...)
+                    // belong to the value, not to its key; the key's fallback is back afterwards.
+                    let _value_fallback = MissingFieldLocationGuard::new(reference_location);
 
                     #[cfg(any(feature = "garde", feature = "validator"))]
                     {
